@@ -38,7 +38,7 @@ theorem writeMembers_length_ge (c : Codec) (ms : List Member) : 512 * ms.length 
     simp only [List.length_cons]
     omega
 
-theorem classify_enc (c : Codec) (n : List Byte) (s : Nat) (h : c.valid n s) : classify c (c.enc n s) = .hdr n s := by
+theorem classify_enc (c : Codec) (n : List Byte) (s : Nat) (h : c.valid n s) : classify c.dec (c.enc n s) = .hdr n s := by
   unfold classify
   simp [c.enc_len, c.enc_nonzero n s h, c.dec_enc n s h]
 
@@ -48,7 +48,7 @@ theorem zeros_all (n : Nat) : (zeros n).all (· == 0) = true := by
   have := List.eq_of_mem_replicate hx
   simp [this]
 
-theorem classify_zeros (c : Codec) : classify c (zeros 512) = .eof := by
+theorem classify_zeros (c : Codec) : classify c.dec (zeros 512) = .eof := by
   unfold classify
   have h1 : (zeros 512).length = 512 := zeros_length 512
   simp only [h1, zeros_all]
@@ -62,8 +62,8 @@ theorem readMembers_peel (c : Codec) (p : Nat → Nat → Nat) (k : Nat) (tail :
     ∀ (ms : List Member) (data : List Byte) (pos offset : Nat) (acc : List Member),
       (∀ m ∈ ms, c.valid m.name m.data.length) → pos ≤ offset →
       data.drop (offset - pos) = writeMembers c ms ++ tail →
-      readMembers c (ms.length + k) (mkReader data p pos) offset acc
-        = readMembers c k (mkReader tail p (offset + (writeMembers c ms).length))
+      readMembers c.dec (ms.length + k) (mkReader data p pos) offset acc
+        = readMembers c.dec k (mkReader tail p (offset + (writeMembers c ms).length))
             (offset + (writeMembers c ms).length) (acc ++ ms) := by
   intro ms
   induction ms with
@@ -123,7 +123,7 @@ theorem seek_mk_back (data : List Byte) (p : Nat → Nat → Nat) (pos off : Nat
 /-- the result of reading an archive does not depend on the chunking policy -/
 theorem readMembers_policy (c : Codec) (p p' : Nat → Nat → Nat) :
     ∀ (fuel : Nat) (data : List Byte) (pos offset : Nat) (acc : List Member),
-      readMembers c fuel (mkReader data p pos) offset acc = readMembers c fuel (mkReader data p' pos) offset acc := by
+      readMembers c.dec fuel (mkReader data p pos) offset acc = readMembers c.dec fuel (mkReader data p' pos) offset acc := by
   intro fuel
   induction fuel with
   | zero => intro _ _ _ _; rfl
@@ -131,12 +131,12 @@ theorem readMembers_policy (c : Codec) (p p' : Nat → Nat → Nat) :
     intro data pos offset acc
     by_cases h : pos ≤ offset
     · simp only [readMembers, seek_mk _ _ _ _ h, read_mk, mkReader_pos]
-      cases classify c (List.take 512 (List.drop (offset - pos) data)) <;> simp only [ih]
+      cases classify c.dec (List.take 512 (List.drop (offset - pos) data)) <;> simp only [ih]
     · simp only [readMembers, seek_mk_back _ _ _ _ (Nat.lt_of_not_le h)]
 
 /-- after the members: an exhausted stream ends the iteration silently (anywhere but at offset 0) -/
 theorem readMembers_at_end (c : Codec) (p : Nat → Nat → Nat) (k off : Nat) (acc : List Member) (h : off ≠ 0) :
-    readMembers c k (mkReader [] p off) off acc = .ok acc := by
+    readMembers c.dec k (mkReader [] p off) off acc = .ok acc := by
   cases k with
   | zero => rfl
   | succ k =>
